@@ -102,9 +102,11 @@ def run_unit(unit):
         res["transitions"] += 1
         q = None
         exc = None
+        skip = unit.get("skip_oracle", False)
         signal.alarm(deadline)
         try:
-            oracle.before(ev)
+            if not skip:
+                oracle.before(ev)
             q = menus.apply_event(st.proc, ev, st.ns)
         except TransitionTimeout:
             res["timeouts"] += 1
@@ -137,7 +139,8 @@ def run_unit(unit):
             po[1] += 1
         signal.alarm(max(deadline, 60))
         try:
-            oracle.after(ev, q, exc, outcome)
+            if not skip:
+                oracle.after(ev, q, exc, outcome)
         except TransitionTimeout:
             res["timeouts"] += 1
         except Exception:
@@ -164,8 +167,11 @@ def run_unit(unit):
 
 
 def explore(rep, seed_names, oracle, tier, depth, root_parts=4, safe_only=True, include_unsafe=False,
-            ops=None, max_states_per_level=None, time_budget_s=None, workers=None, extra=None):
-    """level-synchronous BFS.  returns summary dict"""
+            ops=None, max_states_per_level=None, time_budget_s=None, workers=None, extra=None,
+            ops_by_depth=None, oracle_from_depth=0):
+    """level-synchronous BFS.  returns summary dict
+    ops_by_depth: optional list (one entry per level) of op-name sets restricting the menu at that level
+    oracle_from_depth: levels below it only generate successor states (their transitions were judged elsewhere)"""
     workers = workers or min(16, os.cpu_count() or 4)
     t0 = time.time()
     vseed = rep.seed
@@ -184,8 +190,9 @@ def explore(rep, seed_names, oracle, tier, depth, root_parts=4, safe_only=True, 
                 np_ = root_parts if d == 0 else 1
                 for part in range(np_):
                     u = {"seed": sn, "hist": hist, "part": part, "nparts": np_, "tier": tier, "oracle": oracle,
-                         "safe_only": safe_only, "include_unsafe": include_unsafe, "ops": ops, "self_hash": h,
-                         "order_seed": vseed, "last_level": d == depth - 1}
+                         "safe_only": safe_only, "include_unsafe": include_unsafe,
+                         "ops": (ops_by_depth[d] if ops_by_depth else ops), "self_hash": h,
+                         "order_seed": vseed, "last_level": d == depth - 1, "skip_oracle": d < oracle_from_depth}
                     if extra:
                         u.update(extra)
                     units.append(u)
